@@ -82,8 +82,12 @@ def run(chk):
     chk.assumptions += [
         "histories (describe/register/update/snapshot sequences) are issued in lock-step (one call at a time); concurrent "
         "use of one recorder is covered by SharedRegister.tla + real-parallel rounds for registration of an equal key "
-        "and one update per handle, with the snapshot taken at quiescence; a snapshot running concurrently with "
-        "updates is the bucket's property (C05, known finding CF05a) and is not exercised",
+        "and one update per handle, with the snapshot taken at quiescence; concurrent snapshots of one histogram "
+        "(with and without a concurrent writer) by SnapshotDrain.tla + the `drains` stage",
+        "a record() that overlaps a snapshot in a real-parallel run may be lost by the inherited bucket deviation CF05a; "
+        "without a total order it cannot be told apart from another loss, so such rounds assert no duplicates, nothing "
+        "invented and the deviation's bound (one value per writer per snapshot) only; losses are asserted exactly in the "
+        "rounds where no push overlaps a drain (A, B-gated)",
         "gauge and histogram values are integer valued f64 (exact arithmetic); counters use x*2^64/w so that "
         "wrap-around is arithmetic modulo w",
         "histogram values within one snapshot are compared as a bag (the property does not fix their order)",
@@ -124,6 +128,31 @@ def run(chk):
         chk.tool_error("SharedRegister no longer rejects insert-without-recheck (witness lost)", r["out"][-2000:])
     chk.notes["insert_without_recheck_witness"] = "Recheck=FALSE violates %s at depth %d" % (r["invariant"], r["depth"])
 
+    # ---- 1c. histogram drain under concurrency (SnapshotDrain.tla): writers record while several threads snapshot
+    #          through clones of one Snapshotter; hand-over of the bucket's chain by one CAS as clear_with does
+    sd_inv = "NoDuplicate NoInvention Conservation LateLostBound QuiescentExact"
+    sc_exempt = {"SCopy", "SCDetach", "SCRead"}
+    sds = [("drain_writers", dict(Writers="{1,2}", NVals=2 + d, Prefill=2, Snappers="{1,2}", NSnaps=2, CopyThenClear="FALSE"), sd_inv, sc_exempt),
+           ("drain_quiet", dict(Writers="{}", NVals=0, Prefill=3, Snappers="{1,2,3}", NSnaps=2, CopyThenClear="FALSE"),
+            sd_inv + " StrictConservation", sc_exempt | {"WLoad", "WStore"})]
+    for name, c, inv, ex in sds:
+        cfg = write_cfg(name, "Spec", c, inv)
+        r = vlib.tlc_mc(SPEC, "SnapshotDrain", cfg, workers=8, timeout=3000, tag=name)
+        if not chk.expect_mc_ok(r, "SnapshotDrain/" + name, vacuity_exempt=ex):
+            return
+        chk.log("TLC %s: %d distinct states, %d generated, depth %d, %.0fs" % (name, r["distinct"], r["generated"], r["depth"], r["wall"]))
+    # witnesses: the inherited bucket deviation is reachable (strict conservation fails as coded), and the
+    # copy-then-clear variant is rejected both ways (a value in two snapshots; a value lost without that deviation)
+    wits = [("drain_wit_cf05a", dict(Writers="{1}", NVals=2, Prefill=1, Snappers="{1}", NSnaps=2, CopyThenClear="FALSE"), "StrictConservation"),
+            ("drain_wit_ctc_dup", dict(Writers="{}", NVals=0, Prefill=2, Snappers="{1,2}", NSnaps=1, CopyThenClear="TRUE"), "NoDuplicate"),
+            ("drain_wit_ctc_loss", dict(Writers="{1}", NVals=1, Prefill=1, Snappers="{1}", NSnaps=1, CopyThenClear="TRUE"), "Conservation")]
+    for name, c, inv in wits:
+        cfg = write_cfg(name, "Spec", c, inv)
+        r = vlib.tlc_mc(SPEC, "SnapshotDrain", cfg, workers=2, timeout=600, tag=name, coverage=False)
+        if r["invariant"] != inv:
+            chk.tool_error("SnapshotDrain witness %s lost: expected %s violated, got %s" % (name, inv, r["invariant"]), r["out"][-2000:])
+        chk.notes.setdefault("drain_witnesses", []).append("%s: %s violated at depth %d" % (name, inv, r["depth"]))
+
     # ---- 2. harness against the repository's working tree
     ok, out, wall = vlib.cargo_build("c19")
     if not ok:
@@ -149,11 +178,11 @@ def run(chk):
     # 4a random long histories (-simulate), also trace-validated
     sims = [("sim_long", consts(Kinds='{"c","g","h"}', Names="{1,2}", LSets="{0,2}", Units="{1,2}", Descs="{1,2}",
                                 COps="<- MC_COpsL", GOps="<- MC_GOpsL", HOps="<- MC_HOpsL", W=16, MaxOps=30,
-                                Enumerate="FALSE"), 400 if thorough else 60),
+                                Enumerate="FALSE"), 400 if thorough else 50),
             ("sim_wide", consts(Kinds='{"c","g","h"}', Names="{1,2,3}", LSets="{0,1,2,3,4}", Units="{1,2,3}",
-                                Descs="{1,2,3}", W=4, MaxOps=16, Enumerate="FALSE"), 600 if thorough else 100),
+                                Descs="{1,2,3}", W=4, MaxOps=16, Enumerate="FALSE"), 600 if thorough else 80),
             ("sim_two", consts(Recs="{1,2}", Kinds='{"c","g","h"}', Names="{1,2}", LSets="{1,2}", W=4, MaxOps=20,
-                               Enumerate="FALSE"), 600 if thorough else 100)]
+                               Enumerate="FALSE"), 600 if thorough else 80)]
     progs = chk.path("programs_sim.ndjson")
     nsim = 0
     with open(progs, "w") as f:
@@ -223,7 +252,7 @@ def run(chk):
     #         and gated at the registry's read->write lock gap; every round's snapshot is checked by TLC against
     #         RoundSnapshot (counter = n, gauge = n, histogram = every tid once, order c, g, h)
     tr5 = chk.path("rounds.ndjson")
-    nfree, ngated = (12000, 1000) if thorough else (3000, 300)
+    nfree, ngated = (12000, 1000) if thorough else (2000, 200)
     rc, out, s5 = vlib.harness("c19", ["rounds", "--rounds", nfree, "--gated", ngated, "--threads", 8, "--out", tr5],
                                env=env, timeout=1200)
     if rc != 0 or not s5:
@@ -234,6 +263,31 @@ def run(chk):
     chk.notes["rounds"] = s5
     chk.log("parallel rounds: %d free (8 threads) + %d gated (4 threads): harness tally %d + %d bad, gate timeouts %d"
             % (s5["free_rounds"], s5["gated_rounds"], s5["bad_free_rounds"], s5["bad_gated_rounds"], s5["gate_timeouts"]))
+
+    # ---- 6. concurrent snapshots of one histogram on the real recorder (clones of one Snapshotter, real threads):
+    #         A  recording stopped, K threads snapshot at once (free / gated at clear_with's entry), then a final one;
+    #         B-gated  writer and snapshotter in hand-shake at clear_with's entry (no push overlaps the drain);
+    #         B-free  a writer records while another thread keeps snapshotting;  B-cf05a  directed witness of the
+    #         inherited bucket finding.  TLC (DrainOK): never a value twice, none invented, strict rounds exactly once,
+    #         otherwise missing values bounded by the deviation and reported as KNOWN only if CF05a is listed for C19.
+    tr6 = chk.path("drains.ndjson")
+    listed = "CF05a" in chk.listed
+    sizes = dict(af=2500, ag=600, bg=600, bf=300, wit=50) if thorough else dict(af=500, ag=150, bg=150, bf=60, wit=20)
+    rc, out, s6 = vlib.harness("c19", ["drains", "--a-free", sizes["af"], "--a-gated", sizes["ag"], "--b-gated", sizes["bg"],
+                                       "--b-free", sizes["bf"], "--cf05a", sizes["wit"], "--listed", 1 if listed else 0,
+                                       "--out", tr6], env=env, timeout=1200)
+    if rc != 0 or not s6:
+        chk.tool_error("c19 drains failed", out)
+    n6 = vlib.validate_concat(chk, SPEC, "TraceDebugSnapshot", tcfg, tr6, "concurrent snapshots of one histogram",
+                              known_map={"CF05a": "CF05a"}, max_rounds=3, timeout=3000)
+    chk.cov["traces_validated_against_impl"] += n6
+    chk.notes["drains"] = s6
+    chk.notes["cf05a_listed_for_c19"] = listed
+    chk.log("concurrent drains: A %d free + %d gated, B %d gated + %d free, witness %d: rounds with duplicates %d, missing in "
+            "strict rounds %d, in B-free %d, in the CF05a witness %d (CF05a %s for C19)"
+            % (s6["a_free"], s6["a_gated"], s6["b_gated"], s6["b_free"], s6["cf05a_witness_rounds"], s6["rounds_with_duplicates"],
+               s6["missing_in_strict_rounds"], s6["missing_in_b_free"], s6["missing_in_cf05a_witness"],
+               "listed" if listed else "not listed"))
 
     with open(tr) as f:
         head = [json.loads(next(f)) for _ in range(8)]
@@ -255,6 +309,15 @@ def replay(chk, path):
     lines = [l for l in open(path).read().splitlines() if l.strip()]
     first = json.loads(lines[0])
     progs = chk.path("replay_programs.ndjson")
+    if any('"ev":"drain"' in l for l in lines):
+        tr6 = chk.path("replay_drains.ndjson")
+        rc, out, s6 = vlib.harness("c19", ["drains", "--listed", 1 if "CF05a" in chk.listed else 0, "--out", tr6],
+                                   env={"VERIF_SEED": str(chk.seed)}, timeout=1200)
+        if rc != 0 or not s6:
+            chk.tool_error("c19 drains failed", out)
+        vlib.validate_concat(chk, SPEC, "TraceDebugSnapshot", "TraceDebugSnapshot.cfg", tr6, "replay: concurrent drains",
+                             known_map={"CF05a": "CF05a"}, max_rounds=3)
+        return
     if any('"ev":"round"' in l for l in lines):
         # a failed parallel round: the schedule is not recorded (real parallel threads); run the stage again
         tr5 = chk.path("replay_rounds.ndjson")
